@@ -13,11 +13,13 @@ setattr/delattr, the generated `__match_args__` tuple, absent -- or the kind of 
 from __future__ import annotations
 
 import itertools
+import json
 import os
 import pickle
 import sys
 import types
 import warnings
+import zlib
 
 import attr
 import attrs
@@ -46,7 +48,13 @@ ASSUMPTIONS = [
     "`gen` additionally requires that it passes a behaviour probe (repr string, ==/!= of equal/unequal instances, ordering, hash "
     "of equal instances, __init__/__attrs_init__ store the arguments, getstate/setstate + pickle round trip, hook runs on assignment)",
     "one own field x (plus an inherited field y below an attrs base); the decision table does not depend on the fields except "
-    "through 'has a validator'",
+    "through 'has a validator'; converter (only next to a validator), default/factory, kw_only and __attrs_pre_init__/"
+    "__attrs_post_init__ are harness-only variation (cfg) used by the __init__/__attrs_init__ probes",
+    "`__attrs_init__` is 'equivalent' when, on a fresh instance and for every call form (all arguments; x defaulted), it gives the "
+    "same outcome, the same callback trace (pre-init, factory, converter, validator, post-init, on_setattr hooks) and the same "
+    "instance state (field values, exception args/str, hash cache, instance dict keys) as the generated __init__ of a twin class "
+    "built from the same case with init=True; both are also checked against the reference semantics (converter/validator once, "
+    "no hook of the class's own __setattr__)",
     "exception classes under auto_exc: eq/order/hash values are ignored (documented); definition errors are compared by kind only",
 ]
 
@@ -88,6 +96,39 @@ def _hook(inst, a, v):
 
 def _validator(inst, a, v):
     HOOKLOG.append("v:" + a.name)
+
+
+def _converter(v):
+    """deliberately not idempotent: converting twice is visible in the value"""
+    HOOKLOG.append("c:x")
+    return v + 100
+
+
+def _factory():
+    HOOKLOG.append("f:x")
+    return 7
+
+
+def _pre_init(self):
+    HOOKLOG.append("pre")
+
+
+def _post_init(self):
+    HOOKLOG.append("post")
+
+
+def _init_cfg(case):
+    """harness-only variation of the field and the init hooks (the decision table does not depend on it):
+    converter (only next to a validator, so that 'the field has something to convert/validate' stays what the
+    case says), default / factory, kw_only, __attrs_pre_init__ / __attrs_post_init__"""
+    cfg = case.get("cfg") or {}
+    return {
+        "converter": bool(cfg.get("converter")) and bool(case["fieldValidator"]),
+        "dflt": cfg.get("dflt") or "none",
+        "kw_only": bool(cfg.get("kw_only")),
+        "pre": bool(cfg.get("pre")),
+        "post": bool(cfg.get("post")),
+    }
 
 
 def default_case():
@@ -228,8 +269,25 @@ def build(case):
         pns = {n: _user_obj(n, "BASE") for n in case["baseDefines"]}
         pns["__module__"] = SYNTH_MOD
         base = types.new_class("P", (base,), {}, lambda d: d.update(pns))
-    fld = attr.ib(validator=_validator) if case["fieldValidator"] else attr.ib()
+    ic = _init_cfg(case)
+    fkw = {}
+    if case["fieldValidator"]:
+        fkw["validator"] = _validator
+    if ic["converter"]:
+        fkw["converter"] = _converter
+    if ic["dflt"] == "value":
+        fkw["default"] = 7
+    elif ic["dflt"] == "factory":
+        fkw["factory"] = _factory
+    if ic["kw_only"]:
+        fkw["kw_only"] = True
+    fld = attr.ib(**fkw)
     fields.append("x")
+    hooks_ns = {}
+    if ic["pre"]:
+        hooks_ns["__attrs_pre_init__"] = _pre_init
+    if ic["post"]:
+        hooks_ns["__attrs_post_init__"] = _post_init
     if cfg.get("cell"):
         # a real `class` statement whose methods reference `__class__`: the compiler gives each of them a closure
         # cell holding the class, which the slotted rebuild has to rewrite *in place* (same function objects)
@@ -245,7 +303,9 @@ def build(case):
             else:
                 lines.append(f"    def {n}(self, *a, **k):\n        __class__\n        return _impl[{n!r}](self, *a, **k)")
         lines.append("    x: int = _field" if case["api"] != "attrS" else "    x = _field")
-        g = {"Base": base, "_impl": impl, "_field": fld, "__name__": SYNTH_MOD}
+        for hn in hooks_ns:
+            lines.append(f"    {hn} = _hooks[{hn!r}]")
+        g = {"Base": base, "_impl": impl, "_field": fld, "_hooks": hooks_ns, "__name__": SYNTH_MOD}
         exec("\n".join(lines), g)  # noqa: S102
         cls = g["C"]
         user = {n: cls.__dict__[n] for n in case["body"]}
@@ -254,6 +314,7 @@ def build(case):
         ns = dict(user)
         ns["__module__"] = SYNTH_MOD
         ns["x"] = fld
+        ns.update(hooks_ns)
         if case["api"] != "attrS":
             ns["__annotations__"] = {"x": int}
         cls = types.new_class("C", (base,), {}, lambda d: d.update(ns))
@@ -310,13 +371,7 @@ def _probe(name, fn, C, fields, case, cache_hash):
         h = fn(a)
         return isinstance(h, int) and h == fn(b)
     if name in ("__init__", "__attrs_init__"):
-        inst = C.__new__(C)
-        del HOOKLOG[:]
-        fn(inst, *hi)
-        ran_validator = "v:x" in HOOKLOG
-        del HOOKLOG[:]
-        # stores the arguments, runs the field's validator: what the generated __init__ does
-        return [getattr(inst, f) for f in fields] == hi and ran_validator == bool(case["fieldValidator"])
+        return _probe_init(name, fn, C, fields, case, cache_hash)
     if name == "__getstate__":
         return fn(a) == dict(zip(fields, lo))
     if name == "__setstate__":
@@ -345,8 +400,89 @@ def _probe(name, fn, C, fields, case, cache_hash):
         del HOOKLOG[:]
         fn(a, "x", 41)
         ran = bool(HOOKLOG)
+        converted = "c:x" in HOOKLOG
         del HOOKLOG[:]
-        return ran and a.x == 41
+        return ran and a.x == (141 if converted else 41)
+    return True
+
+
+def _call_forms(fields, case):
+    """(args, kwargs, expected x before conversion, uses the default) for: everything passed; x left out"""
+    ic = _init_cfg(case)
+    n = len(fields)
+    hi = list(range(1, n)) + [n + 5]
+    forms = []
+    if ic["kw_only"]:
+        forms.append((hi[:-1], {"x": hi[-1]}, hi[-1], False))
+    else:
+        forms.append((hi, {}, hi[-1], False))
+    if ic["dflt"] != "none":
+        forms.append((hi[:-1], {}, 7, True))
+    return forms
+
+
+def _state(obj, fields):
+    """everything an initialiser leaves behind on the instance"""
+    st = {"fields": [getattr(obj, f, "<missing>") for f in fields],
+          "cache": getattr(obj, "_attrs_cached_hash", "<missing>")}
+    if isinstance(obj, BaseException):
+        st["args"] = obj.args
+        try:
+            st["str"] = BaseException.__str__(obj)
+        except Exception as e:  # noqa: BLE001
+            st["str"] = "exc:" + type(e).__name__
+    d = getattr(obj, "__dict__", None)
+    st["dict"] = sorted(d) if isinstance(d, dict) else None
+    return st
+
+
+def _run_init(cls, fn, args, kwargs, fields):
+    obj = cls.__new__(cls)
+    del HOOKLOG[:]
+    try:
+        fn(obj, *args, **kwargs)
+        out = "ok"
+    except Exception as e:  # noqa: BLE001
+        out = "exc:" + common.exc_kind(e)
+    trace = list(HOOKLOG)
+    del HOOKLOG[:]
+    return out, trace, _state(obj, fields)
+
+
+def _probe_init(name, fn, C, fields, case, cache_hash):
+    """`__init__`: against the reference semantics (pre-init, factory, converter once, validator once, post-init,
+    no on_setattr hook, arguments stored, hash cache reset, exception args empty or the field values).
+    `__attrs_init__`: additionally against the generated `__init__` of a TWIN class that differs only in having
+    its `__init__` generated (init=True): same outcome, same callback trace, same instance state (fields,
+    exception args/str, hash cache, instance dict)."""
+    ic = _init_cfg(case)
+    twin = None
+    if name == "__attrs_init__":
+        T, terr, _, tfields = build(dict(case, fInit="t"))
+        if terr is None and tfields == fields and _is_attrs_function(T.__dict__.get("__init__")):
+            twin = T
+    for args, kwargs, x_raw, from_default in _call_forms(fields, case):
+        out, trace, st = _run_init(C, fn, args, kwargs, fields)
+        want_x = x_raw + 100 if ic["converter"] else x_raw
+        want_trace = ((["pre"] if ic["pre"] else []) + (["f:x"] if from_default and ic["dflt"] == "factory" else [])
+                      + (["c:x"] if ic["converter"] else []) + (["v:x"] if case["fieldValidator"] else [])
+                      + (["post"] if ic["post"] else []))
+        vals = list(args[:len(fields) - 1]) + [want_x]
+        ref_trace = trace
+        if not _is_attrs_function(C.__dict__.get("__setattr__")):
+            # no hook __setattr__ of the class's own: plain assignments are what attrs generates, and a hook
+            # __setattr__ *inherited* past a plain class (K6's shape, C06) then sees them -- not this property's
+            # business; the comparison with the twin below still covers the full trace
+            ref_trace = [t for t in trace if t in ("pre", "post") or ":" in t]
+        if out != "ok" or st["fields"] != vals or ref_trace != want_trace:
+            return False
+        if cache_hash and st["cache"] is not None:
+            return False
+        if "args" in st and st["args"] not in ((), tuple(vals)):
+            return False
+        if twin is not None:
+            if _run_init(twin, twin.__dict__["__init__"], args, kwargs, fields) != (out, trace, st):
+                return False
     return True
 
 
@@ -368,7 +504,8 @@ def _classify(name, v, C, user, fields, case, cache_hash):
     if v is getattr(_attr_make, "_frozen_delattrs", _MISSING):
         return "frozenDelattr"
     if name == "__match_args__" and isinstance(v, tuple):
-        return "genTuple" if v == tuple(fields) else "other"
+        want = tuple(f for f in fields if not (f == "x" and _init_cfg(case)["kw_only"]))
+        return "genTuple" if v == want else "other"
     if _is_attrs_function(v):
         try:
             return "gen" if _probe(name, v, C, fields, case, cache_hash) else "genBroken"
@@ -437,9 +574,16 @@ def _subsets(names):
 def _mk(block, **kw):
     c = default_case()
     cfg = dict(c["cfg"], block=block)
+    explicit = set(kw.get("cfg", {}))
     cfg.update(kw.pop("cfg", {}))
     c.update(kw)
-    cfg.setdefault("cell", sum(map(len, c["body"])) % 3 == 1)
+    # harness-only variation, a deterministic function of the model-level case
+    h = zlib.crc32(json.dumps({k: v for k, v in c.items() if k != "cfg"}, sort_keys=True).encode())
+    for key, val in (("cell", h % 3 == 1), ("converter", (h >> 2) % 2 == 1), ("pre", (h >> 3) % 4 == 1),
+                     ("post", (h >> 5) % 4 == 1), ("dflt", ["none", "none", "value", "factory"][(h >> 7) % 4]),
+                     ("kw_only", (h >> 9) % 4 == 1)):
+        if key not in explicit:
+            cfg[key] = val
     c["cfg"] = cfg
     if c["baseDefines"]:
         c["plainMid"] = True
@@ -524,6 +668,26 @@ def block_init():
                   fUnsafeHash="t" if ch else "unset", baseDefines=bd, attrsBase=ab)
 
 
+def block_attrs_init():
+    """no generated __init__ (explicit init=False, or a body __init__ under auto-detection): the provided
+    __attrs_init__ against the generated __init__ of the twin class -- exception roots with auto_exc on/off, slots,
+    frozen, on_setattr hooks, validator/converter, default/factory, kw_only, pre/post-init hooks"""
+    routes = [("f", [], None), ("unset", ["__init__"], True), ("non", ["__init__", "__attrs_init__"], True)]
+    icfgs = [dict(converter=cv, pre=pp, post=pp2, dflt=df, kw_only=kw)
+             for cv, (pp, pp2), df, kw in itertools.product(
+                 [False, True], [(False, False), (True, True), (False, True)], ["none", "value", "factory"],
+                 [False, True])]
+    for api, exc, ae, (fi, own, ad), sl, fr, fv, on, ab in itertools.product(
+            APIS, [True, False], OB3, routes, [True, False], [None, True], [False, True],
+            ["unset", "hook", "validate"], ["none", "vanilla"]):
+        for k, ic in enumerate(icfgs):
+            # every init variation for the exception rows, a rotating third of them otherwise
+            if not exc and (k + len(own) + (1 if sl else 0)) % 3:
+                continue
+            yield _mk("attrs_init", api=api, excBase=exc, oAutoExc=ae, fInit=fi, body=own, oAutoDetect=ad, oSlots=sl,
+                      oFrozen=fr, fieldValidator=fv, onSetattr=on, attrsBase=ab, cfg=dict(ic))
+
+
 def block_gss():
     yield from block_simple("gss", "fGss", GROUPS["gss"])
 
@@ -561,7 +725,8 @@ def block_other():
                   baseDefines=[OTHER_NAMES[(k + 5) % len(OTHER_NAMES)]])
 
 
-BLOCKS = [block_repr, block_str, block_cmp, block_order_subsets, block_eq_inherit, block_hash, block_init, block_gss,
+BLOCKS = [block_repr, block_str, block_cmp, block_order_subsets, block_eq_inherit, block_hash, block_init,
+          block_attrs_init, block_gss,
           block_match, block_setattr, block_exc, block_other]
 
 
@@ -586,7 +751,9 @@ def random_case(rng):
             onSetattr=rng.choice(["unset"] * 4 + ["non", "hook", "validate", "noOp"]),
             fieldValidator=rng.random() < 0.4, body=body, attrsBase=rng.choice(ABASES + ["none"]),
             plainMid=rng.random() < 0.3, baseDefines=bd, excBase=rng.random() < 0.15,
-            cfg={"base_slots": rng.random() < 0.5, "cell": rng.random() < 0.4})
+            cfg={"base_slots": rng.random() < 0.5, "cell": rng.random() < 0.4, "converter": rng.random() < 0.5,
+                 "pre": rng.random() < 0.25, "post": rng.random() < 0.25,
+                 "dflt": rng.choice(["none", "none", "value", "factory"]), "kw_only": rng.random() < 0.2})
     return c
 
 
@@ -604,7 +771,7 @@ def gen_cases(tier, rng):
         if len(cases) > per_block:
             cases = rng.sample(cases, per_block)
         yield from cases
-    for _ in range(11000):
+    for _ in range(9000):
         yield random_case(rng)
 
 
@@ -624,9 +791,11 @@ def shrink(case):
             if k == "plainMid" and case["baseDefines"]:
                 continue
             yield c
-    for k in ("base_slots", "cell"):
+    for k in ("base_slots", "cell", "converter", "pre", "post", "kw_only"):
         if (case.get("cfg") or {}).get(k):
             yield dict(case, cfg=dict(case["cfg"], **{k: False}))
+    if (case.get("cfg") or {}).get("dflt", "none") != "none":
+        yield dict(case, cfg=dict(case["cfg"], dflt="none"))
 
 
 def neighbours(case, rng):
@@ -670,7 +839,8 @@ LEVEL_TEXT = (
     "user's object -- functions, functions with a __class__ cell, classmethod/property/staticmethod objects, a tuple --, "
     "attrs-generated and passing a behaviour probe, None, object.__setattr__, frozen setattr/delattr, generated "
     "__match_args__) and the kind of definition error; thorough tier: exhaustive per-group blocks (about 2e5 cases) + 2e5 "
-    "random cross-group cases; quick: 1000 sampled cases per block + 11000 random. Behaviour of generated methods is probed "
-    "(repr string, ==/!=, ordering, hash equality, __init__/__attrs_init__ store arguments and run the validator, "
+    "random cross-group cases; quick: 1000 sampled cases per block + 9000 random. Behaviour of generated methods is probed "
+    "(repr string, ==/!=, ordering, hash equality, __init__ against reference semantics, __attrs_init__ against the generated "
+    "__init__ of a twin class: outcome, callback trace, field values, exception args, hash cache, "
     "getstate/setstate + pickle round trip, hook runs on assignment), not modelled. Known deviation K8 listed with a Lean "
     "predicate (Attrs.C14.k8).")
